@@ -12,7 +12,8 @@ from .interp import (Ctx, Frame, PyRaise, _Return, _Break, _Continue, PathEnd, I
                      FP, RNE)
 from .values import (S, VOpt, VQty, VTime, VDelta, VEnum, SEnum, VRec, VRef, HObj, HList, HDict,
                      HSet, SymSeq, SymSet, SymMap, FuncRef, ClassRef, ModRef, ExtRef,
-                     BoundBuiltin, Opaque, Unsupported, fresh_name, zreal, float_literal, GhostSeq)
+                     BoundBuiltin, Opaque, Unsupported, fresh_name, zreal, float_literal, GhostSeq,
+                     KeySetVal, HKeySet)
 
 
 class SpecFn:
@@ -22,7 +23,7 @@ class SpecFn:
         self.name = name
 
 
-SPEC_FORMS = {"old", "implies", "forall", "exists", "ite", "result_is_exception"}
+SPEC_FORMS = {"old", "implies", "forall", "exists", "ite", "keyset_has", "keyset_get", "same_record"}
 
 
 class Interp:
@@ -131,6 +132,9 @@ class Interp:
             h = self.ctx.deref(v)
             if isinstance(h, (HList, HDict, HSet)):
                 return len(h.items) > 0
+            if isinstance(h, HKeySet):
+                from . import keysets
+                return keysets.enumeration(self.engine, self, h.val).length > 0
             ci = self.engine.class_info(h.cls)
             if ci and ("__bool__" in ci.methods or "__len__" in ci.methods):
                 m = "__bool__" if "__bool__" in ci.methods else "__len__"
@@ -755,6 +759,9 @@ class Interp:
             return self.wrap_bool(acc)
         if isinstance(container, VRef):
             h = self.ctx.deref(container)
+            if isinstance(h, HKeySet):
+                from . import keysets
+                return keysets.contains(self.engine, self, h.val, item)
             if isinstance(h, HList):
                 return self.contains(tuple(h.items), item)
             if isinstance(h, (HSet, HDict)):
@@ -1194,6 +1201,23 @@ class Interp:
             if name == "forall":
                 return mk(z3.ForAll([iv], z3.Implies(rng, body)), "bool")
             return mk(z3.Exists([iv], z3.And(rng, body)), "bool")
+        if name in ("keyset_has", "keyset_get"):
+            from . import keysets
+            b = self.eval(node.args[0], fr)
+            keys = [zof(self.unwrap(k), "int") for k in self.iterate_concrete(self.eval(node.args[2], fr))]
+            h = ctx.deref(b) if isinstance(b, VRef) else None
+            if isinstance(h, HSet):
+                b = self.engine.coerce_keyset_any(self, b, self.iterate_concrete(self.eval(node.args[1], fr)))
+                h = ctx.deref(b)
+            if not isinstance(h, HKeySet):
+                raise Unsupported("keyset_has on a non key-set")
+            if name == "keyset_has":
+                return mk(keysets.nsel(h.val.present, keys), "bool")
+            return keysets.elem_at(self.engine, self, h.val, keys)
+        if name == "same_record":
+            a = self.eval(node.args[0], fr)
+            b = self.eval(node.args[1], fr)
+            return self.engine.fieldwise_equal(self, self.unwrap(a), self.unwrap(b))
         raise Unsupported(f"spec form {name}")
 
     # ================================================================== iteration helpers
@@ -1530,7 +1554,7 @@ class Interp:
 
     def s_For(self, node, fr):
         spec = self.engine.loop_spec(self, node, fr)
-        it = self.eval(node.iter, fr)
+        it = self.as_symbolic_iterable(self.eval(node.iter, fr))
         if spec is not None:
             return self.engine.exec_loop_with_invariant(self, node, fr, spec, iterable=it)
         if isinstance(it, (SymSeq, SymSet, SymMap)) or models.is_symbolic_iterable(self, it):
@@ -1547,6 +1571,14 @@ class Interp:
         self.exec_block(node.orelse, fr)
 
     s_AsyncFor = s_For
+
+    def as_symbolic_iterable(self, v):
+        if isinstance(v, VRef):
+            h = self.ctx.deref(v)
+            if isinstance(h, HKeySet):
+                from . import keysets
+                return keysets.enumeration(self.engine, self, h.val)
+        return v
 
     def s_With(self, node, fr):
         return self.engine.exec_with(self, node, fr)
